@@ -46,6 +46,15 @@ def gen_plan(rng, index, tier):
     bp = {"rings": rings, "symmetry": sym, "nfuel": rng.choice([1, 2]), "plate": rng.random() < 0.4, "plenum": rng.random() < 0.4, "sfp": False, "geom": rng.choice(["hex", "hex_corners_up"])}
     if sym != "full":
         bp["third"] = True
+        if rng.random() < 0.08:
+            # a larger map: two assemblies on each symmetry line, possibly without the inner one
+            rings = bp["rings"] = 5
+            if rng.random() < 0.6:
+                bp["holes"] = [[2, -1]] + ([[1, 1]] if rng.random() < 0.3 else [])
+        elif rings == 3 and rng.random() < 0.5:
+            # maps with empty positions (also on the symmetry lines)
+            cand = [(0, 1), (0, 2), (1, 0), (1, 1), (2, -1), (2, 0)]  # first third of three rings, without the centre
+            bp["holes"] = [list(c) for c in rng.sample(cand, rng.randint(1, 2))]
     if rng.random() < 0.3:
         # Cartesian cores: full (centred on an assembly or on a corner) and quarter (the centre
         # assembly is a quarter, the assemblies on the axes are halves; or nothing is cut)
@@ -254,7 +263,8 @@ class Runner:
             self.probe("edge_" + what)
             for nm, a, b in (("total mass", m0, m1), ("volume", v0, v1), ("U235 mass", mu0, mu1)):
                 if not rel(a, b):
-                    self.fail("C02.symmetry", f"step {k}: {what} changed the core's {nm}: {a} -> {b} (blocks cut by symmetry lines must count with their symmetry factor)", what=nm.split()[-1], op=what)
+                    probe_empty = core.childrenByLocator.get(core.spatialGrid[-1, 2, 0]) is None
+                    self.fail("C02.symmetry", f"step {k}: {what} changed the core's {nm}: {a} -> {b} (blocks cut by symmetry lines must count with their symmetry factor)" + (" [location (-1, 2), by which armi decides whether edge assemblies are present, is empty: its twin (2, -1) is a hole in this map]" if probe_empty and what == "addEdgeAssemblies" else ""), what=nm.split()[-1], op=what, edgeProbeLocationEmpty=bool(probe_empty and what == "addEdgeAssemblies"))
             if what == "addEdgeAssemblies":
                 self.check_levels(k, st)
         self.sig.append(("core", "edge"))
@@ -380,7 +390,8 @@ def execute(plan):
     log, scratch, clock, simos, d = enginea.new_run(plan)
     try:
         if bp.get("third") and bp.get("geom") != "cartesian":
-            cells = c14._first_third_cells(int(bp["rings"]))
+            holes = {tuple(h) for h in bp.get("holes", [])}
+            cells = [c for c in c14._first_third_cells(int(bp["rings"])) if tuple(c) not in holes]
             bp["cells"] = [[i, j, "IC" if inputs.hex_ring(i, j) == 1 else "OC"] for (i, j) in cells]
         cs, o, _ = enginea.build_life(cfg, scratch, 0, d)
         run = Runner(plan, o, log)
